@@ -65,6 +65,8 @@ type c05Rec struct {
 	FailSev   string     `json:"failSev"`
 	Panic     bool       `json:"panic"`
 	Workers   int        `json:"workers"`
+	Hidden    int        `json:"hidden"`
+	OwnerProblems []string `json:"ownerProblems"`
 }
 
 var c05Broken = map[int]string{1: "sum(", 2: "foo{", 3: "1 +"}
@@ -91,7 +93,7 @@ func c05RulesFile(reps []c05Req) string {
 
 func c05Config(reps []c05Req, ci bool) string {
 	var b strings.Builder
-	b.WriteString("parser {\n  relaxed = [\".*\"]\n}\n")
+	b.WriteString("parser {\n  relaxed = [\".*\"]\n}\nowners {\n  allowed = [\"bob\"]\n}\n")
 	if ci {
 		b.WriteString("ci {\n  baseBranch = \"main\"\n}\n")
 	}
@@ -135,6 +137,7 @@ var (
 	c05LocRe  = regexp.MustCompile("^  ---> rules\\.yml:[0-9-]+ -> `r([0-9]+)`(?: \\[\\+([0-9]+) duplicates\\])?$")
 	c05ErrRe  = regexp.MustCompile(`level=ERROR msg="Execution completed with error\(s\)" err="(.*)"$`)
 	c05CntRe  = regexp.MustCompile(`^found ([0-9]+) problem\(s\) with severity (\w+) or higher$`)
+	c05HidRe  = regexp.MustCompile(`msg="([0-9]+) problem\(s\) not visible because of --min-severity=`)
 )
 
 // c05Run executes one pint process and projects its outputs.
@@ -162,6 +165,8 @@ func c05Run(pint, dir, jsonPath string, env []string, args []string, rec *c05Rec
 	se := stderr.String()
 	rec.Panic = strings.Contains(se, "panic:") || strings.Contains(se, "SIGSEGV") || strings.Contains(se, "fatal error:")
 	rec.JSON = []c05Sev{}
+	rec.OwnerProblems = []string{}
+	rec.Hidden = 0
 	rec.Shown = []c05Shown{}
 	rec.Why = "ok"
 	rec.FailSev = "none"
@@ -170,6 +175,7 @@ func c05Run(pint, dir, jsonPath string, env []string, args []string, rec *c05Rec
 		var reps []struct {
 			Severity string `json:"severity"`
 			Reporter string `json:"reporter"`
+			Problem  string `json:"problem"`
 			Lines    []int  `json:"lines"`
 		}
 		if err := json.Unmarshal(b, &reps); err != nil {
@@ -181,6 +187,9 @@ func c05Run(pint, dir, jsonPath string, env []string, args []string, rec *c05Rec
 				return fmt.Errorf("json report without lines: %s", b)
 			}
 			rec.JSON = append(rec.JSON, c05Sev{Rule: (r.Lines[0] + 2) / 3, Sev: r.Severity, Reporter: r.Reporter})
+			if r.Reporter == "rule/owner" {
+				rec.OwnerProblems = append(rec.OwnerProblems, r.Problem)
+			}
 		}
 	}
 	lines := strings.Split(se, "\n")
@@ -194,6 +203,9 @@ func c05Run(pint, dir, jsonPath string, env []string, args []string, rec *c05Rec
 				}
 				rec.Shown = append(rec.Shown, c05Shown{Rule: k, Sev: m[1], Dups: d})
 			}
+		}
+		if m := c05HidRe.FindStringSubmatch(ln); m != nil {
+			rec.Hidden, _ = strconv.Atoi(m[1])
 		}
 		if m := c05ErrRe.FindStringSubmatch(ln); m != nil {
 			msg := strings.ReplaceAll(m[1], `\"`, `"`)
